@@ -17,7 +17,7 @@ RULE = ("kinds: trnorm / trnorm2 (valid SO(n)/SE(n) member + entry noise 1e-15..
         "unittwist (3D and 2D twists, rotational part exactly 0, below (1e-17..1e-15) or above (>=1e-13) the zero threshold; "
         "base functions and Twist3/Twist2.unit), angdiff (angles and differences within +-1e3 incl. exact multiples of pi). "
         "Non-trivial: noise >= 1e-9, or norm outside [0.1,10], or irrotational twist, or |angle| > pi.")
-RULE = RULE + probes.RULE_TEXT + (probes.AUG_TEXT if PROPERTY_ID in probes.AUG_PROPS else "") + probes.VARIANT_TEXT
+RULE = RULE + probes.RULE_TEXT + (probes.AUG_TEXT if PROPERTY_ID in probes.AUG_PROPS else "") + probes.VARIANT_TEXT + probes.OWN_TEXT
 ASSUMPTIONS = ["tolerance 1e-12 throughout (absolute on unit-norm / orthonormality residuals, relative to the input magnitude for directions)",
                "angdiff congruence residual is evaluated with mpmath at 50 digits; tolerance 1e-12*max(1,|a|,|b|)",
                "planar trnorm2 / SO2.norm / SE2.norm: validity, idempotence, fixed point, translation kept and closeness to the input (the 3-D axis clauses of the statement have no planar analogue)"]
@@ -64,7 +64,8 @@ def s_unittwist():
     return st.fixed_dictionaries({
         "kind": st.just("unittwist"), "dim": st.sampled_from([3, 2]),
         "wdir": gens.direction3(), "wmag": wmag,
-        "vdir": gens.direction3(), "vmag": st.one_of(gens.logmag(-3, 6), st.just(1.0), st.just(0.0))})
+        "vdir": gens.direction3(), "vmag": st.one_of(gens.logmag(-3, 6), st.just(1.0), st.just(0.0)),
+        "total": st.one_of(st.none(), st.none(), st.sampled_from([1.0, float(np.nextafter(1.0, 0)), float(np.nextafter(1.0, 2)), 1.0 + 1e-14, 1.0 - 1e-14, 2.0, 0.5]))})
 
 
 def s_angdiff():
@@ -78,7 +79,7 @@ def s_angdiff():
 
 
 def check_case(case):
-    if case.get("kind") in ("hist", "aug", "variant"):
+    if case.get("kind") in ("hist", "aug", "variant", "own"):
         return probes.run(case, PROPERTY_ID)
     return {"trnorm": _trnorm, "trnorm2": _trnorm2, "unitvec": _unitvec, "unitq": _unitq, "unittwist": _unittwist, "angdiff": _angdiff}[case["kind"]](case)
 
@@ -248,6 +249,20 @@ def _unitq(case):
         if ok and c.true("UnitQuaternion(Nx4)/len", len(U) == nrows, "N x 4 array of %d rows gave %d values" % (nrows, len(U))):
             for k, a in enumerate(U.data):
                 c.eq("UnitQuaternion(Nx4)/value", a, qu * (-1.0) ** k, TOL)
+    # the documented norm=False option stores the value as given: unit() of such an object is still a normalisation of
+    # a non-zero quaternion
+    for site, mk in (("norm=False(s,v)", lambda: L.UnitQuaternion(float(q[0]), [float(x) for x in q[1:]], norm=False)),
+                     ("norm=False(array)", lambda: L.UnitQuaternion(q.copy(), norm=False)),
+                     ("norm=False(Nx4)", lambda: L.UnitQuaternion(np.stack([q, -2.0 * q]), norm=False))):
+        ok, Un = c.lib(site, mk)
+        if ok and np.allclose(Un.data[0], q, rtol=1e-12, atol=0):   # stored as given (else the option normalised: nothing to test)
+            ok2, U2 = c.lib(site + ".unit", Un.unit)
+            if ok2 and c.true(site + ".unit/type", type(U2) is L.UnitQuaternion and len(U2) == len(Un), "unit() gave %s of %d" % (type(U2).__name__, len(U2))):
+                for k, a in enumerate(U2.data):
+                    c.eq(site + ".unit/value", a, qu * (-1.0) ** k, TOL)
+                ok3, U3 = c.lib(site + ".unit.unit", U2.unit)
+                if ok3:
+                    c.eq(site + ".unit/idempotent", U3.data[0], U2.data[0], TOL)
     ok, U = c.lib("UnitQuaternion(unit array)", L.UnitQuaternion, qu.copy())
     if ok:
         c.eq("UnitQuaternion(unit array)/fixedpoint", U.vec, qu, TOL)
@@ -258,6 +273,7 @@ def _unittwist(case):
     b = L.base
     dim = case["dim"]
     c = Checker("unittwist%d" % dim, wmag=case["wmag"], vmag=case["vmag"], dim=dim)
+    nd0 = 3 if dim == 3 else 2
     if dim == 3:
         w = arr(case["wdir"]) * case["wmag"]
         v = arr(case["vdir"]) * case["vmag"]
@@ -266,6 +282,13 @@ def _unittwist(case):
         v = arr(case["vdir"][:2])
         v = refs.unit(v) * case["vmag"] if np.max(np.abs(v)) > 1e-3 else np.array([case["vmag"], 0.0])
     S = np.r_[v, w]
+    if case.get("total") is not None and np.linalg.norm(S) > 1e-300:
+        # the whole vector scaled to a given length (exactly 1, one step either side, ...): the overall length of a twist
+        # vector says nothing about whether it is a unit twist
+        S = S / np.linalg.norm(S) * case["total"]
+        v, w = S[:nd0], S[nd0:]
+        if 1e-17 < float(np.linalg.norm(w)) < 1e-12:
+            return c.out     # rescaling moved the rotational part into the band around the zero threshold: not generated
     wn, vn = float(np.linalg.norm(w)), float(np.linalg.norm(v))
     if wn < 1e-14:
         if vn < 1e-3:
@@ -343,7 +366,7 @@ def _angdiff(case):
 
 
 def classify(case):
-    if case.get("kind") in ("hist", "aug", "variant"):
+    if case.get("kind") in ("hist", "aug", "variant", "own"):
         return probes.classify(case)
     k = case["kind"]
     lab = {"kind:" + k: True}
